@@ -39,6 +39,14 @@ impl Drop for UserTls {
                 rust_cc::collect_cycles();
                 let (x, by, bf, it) = counters();
                 rec::emit(json!({"e": "ret", "op": "tcollect", "res": "", "panic": "", "x": x, "by": by, "bf": bf, "it": it}));
+                // creating (and releasing) an object still works at this point, whether the collector's thread-locals are gone or not;
+                // the allocation is not tracked (no events): the point is that the call comes back
+                let _ = rec::MUTE.try_with(|m| m.set(true));
+                let probe = rust_cc::Cc::new(0xFEEDu32);
+                let v = *probe;
+                drop(probe);
+                let _ = rec::MUTE.try_with(|m| m.set(false));
+                rec::emit(json!({"e": "probe", "what": "teardown-alloc", "ok": v == 0xFEED}));
             }
             // drop every handle, one logged operation each; observations are reduced to the
             // public counters (the handle tables are going away)
